@@ -24,10 +24,32 @@ scan(Li, G) :-
 step :- call_with_inference_limit(true, 10, _).
 stepnd :- call_with_inference_limit((true ; true), 10, _).
 expect(G, L, Want) :- ( outcome(G, L, R) -> true ; R = failed ), ( R == Want -> true ; format("WRONG limit=~d goal=~q got=~q expected=~q~n", [L, G, R, Want]) ).
-main :- member(Li, [30, 60, 120, 250, 400, 1000]), goal(Li, G), scan(Li, G), fail.
-main :- expect((step, count(1000)), 200, exceeded), expect((count(1000), step), 200, exceeded), expect((step, step, count(1000)), 300, exceeded),
+m1 :- member(Li, [30, 60, 120, 250, 400, 1000]), goal(Li, G), scan(Li, G), fail.
+m1 :- expect((step, count(1000)), 200, exceeded), expect((count(1000), step), 200, exceeded), expect((step, step, count(1000)), 300, exceeded),
         expect((stepnd, count(1000)), 200, exceeded), expect((step, count(10)), 2000, ok), expect(count(1000), 200, exceeded), fail.
-main :- halt.
+m1.
+% history independence: the outcome of a limited call does not depend on limited calls made before it, whatever way those
+% ended (re-entered and failed, threw on redo, exceeded on redo, nested, cut)
+pick(1).
+pick(2).
+pick(X) :- X = 3, fail.
+pickt(1).
+pickt(2).
+pickt(_) :- throw(oops).
+results(G, L, Rs) :- findall(R, call_with_inference_limit(G, L, R), Rs).
+disturb(1) :- results(pick(_), 60, _).
+disturb(2) :- catch(results(pickt(_), 60, _), _, true).
+disturb(3) :- results((pick(_), count(30)), 45, _).
+disturb(4) :- results((pick(_), call_with_inference_limit(pick(_), 50, _)), 500, _).
+disturb(5) :- call_with_inference_limit(pick(_), 60, _), !.
+disturb(6) :- catch(call_with_inference_limit((pick(X), X >= 2, throw(e)), 100, _), _, true).
+disturb(7) :- results((pick(_), pick(_)), 200, _), results(pick(_), 60, _).
+disturb(8) :- results(call_with_inference_limit((pick(_), pick(_)), 40, _), 300, _).
+probe([A, B, C, D]) :- results(count(40), 1000, A), results((count(10) ; count(20)), 100, B), results(count(400), 100, C), results((pick(X), count(X)), 50, D).
+m2 :- probe(P0), between(1, 8, D), ( catch(disturb(D), _, true) -> true ; true ), probe(P1),
+        ( P0 == P1 -> true ; format("WRONG limit=~d goal=~q got=~q expected=~q~n", [D, probe_after_disturbance(D), P1, P0]) ), fail.
+m2.
+main :- m1, m2, halt.
 :- initialization(main).
 """
 
@@ -39,10 +61,17 @@ def replay_all(repo, by_ob, scratch, log):
     path = os.path.join(scratch, "replay_cwil.pl")
     open(path, "w").write(PROGRAM)
     p = subprocess.run([binary, "-f", "--no-add-history", path], capture_output=True, text=True, timeout=600, stdin=subprocess.DEVNULL)
+    if "overwriting" in (p.stdout + p.stderr):
+        log.append("oracle program is malformed (discontiguous clauses were overwritten): not used")
+        return {ob: None for ob in by_ob}
     fails = []
     for line in p.stdout.split("\n"):
         if line.startswith("NONMONO") or line.startswith("NONDET") or line.startswith("WRONG"):
             fails.append({"goal": line.strip(), "got": ["v", line.strip()], "expected": ["v", "outcome monotone in the limit and deterministic"], "op": "cwil", "a": None, "b": None})
+    if p.returncode != 0:
+        # the program ends with halt/0: any other exit is a crash of the machine (e.g. unwinding to a dead choice point)
+        last = [l for l in p.stdout.split("\n") if l.strip()][-1:] or [""]
+        fails.append({"goal": "engine/replay_cwil.py: the process died with exit %s after printing %r" % (p.returncode, last[0][:120]), "got": ["crash", (p.stderr or "")[-400:].strip()], "expected": ["v", "normal termination"], "op": "cwil", "a": None, "b": None})
     log.append("inference-limit replay: %d anomalies (exit %s)" % (len(fails), p.returncode))
     return {ob: fails for ob in by_ob}
 
